@@ -58,8 +58,14 @@ def kt_ipaddr_or_hostname(s):
     return s.lower()
 
 
+def kt_lower_key(s):
+    if not s or not all(c in _LET or c in _DIG or c == "_" for c in s) or s[0] in _DIG:
+        return None
+    return s.lower()
+
+
 KEYTYPES = {"basic-key": kt_basic_key, "identifier": kt_identifier,
-            "ipaddr-or-hostname": kt_ipaddr_or_hostname}
+            "ipaddr-or-hostname": kt_ipaddr_or_hostname, "vz.harness.dt.lower_key": kt_lower_key}
 
 BAD = ("bad",)
 
